@@ -25,6 +25,10 @@ def write_if_changed(name, text):
 
 GENERATORS = []
 
+from harness import gen_tables_export as _gte  # noqa: E402  (grp-export: C14/C15 name tables)
+
+GENERATORS.append(_gte.generate)
+
 
 def main():
     for g in GENERATORS:
